@@ -793,23 +793,30 @@ func ruleR132(c *Ctx) {
 		var t types.Type
 		switch y := x.(type) {
 		case *ast.CompositeLit:
-			// the literal of a constructor is checked at the constructor's call sites
-			if fd, ok := c.EnclosingFunc(y).(*ast.FuncDecl); ok && len(fd.Body.List) == 1 {
+			// the literal of a constructor (directly returned or wrapped: return Map{AppendMap{...}}) is checked at the
+			// constructor's call sites
+			if fd, ok := c.EnclosingFunc(y).(*ast.FuncDecl); ok && len(fd.Body.List) == 1 && !fd.Name.IsExported() {
 				if r, ok := fd.Body.List[0].(*ast.ReturnStmt); ok && len(r.Results) == 1 {
-					e := ast.Unparen(r.Results[0])
-					if u, ok := e.(*ast.UnaryExpr); ok && u.Op == token.AND {
-						e = ast.Unparen(u.X)
-					}
-					if e == ast.Expr(y) && !fd.Name.IsExported() {
+					if containsNode(r.Results[0], func(z ast.Node) bool { return z == ast.Node(y) }) {
 						return false, false
 					}
 				}
 			}
 			t = info.TypeOf(y)
 		case *ast.CallExpr:
-			if cl, _ := c.ctorLiteral(info, y); cl != nil {
-				if cal := Callee(info, y); cal != nil && !cal.Exported() {
-					t = info.TypeOf(cl)
+			if cal := Callee(info, y); cal != nil && !cal.Exported() && cal.Pkg() == vp.Types {
+				if fd := findFuncDecl(vp, cal); fd != nil && fd.Body != nil && len(fd.Body.List) == 1 {
+					if r, ok := fd.Body.List[0].(*ast.ReturnStmt); ok && len(r.Results) == 1 {
+						ast.Inspect(r.Results[0], func(z ast.Node) bool {
+							if cl, ok := z.(*ast.CompositeLit); ok && t == nil {
+								lt := info.TypeOf(cl)
+								if isNamed(lt, modPath+"/value", "AppendMap") || isNamed(lt, modPath+"/value", "MergeMap") {
+									t = lt
+								}
+							}
+							return true
+						})
+					}
 				}
 			}
 		}
@@ -848,6 +855,46 @@ func ruleR132(c *Ctx) {
 					if call, ok := ast.Unparen(as.Rhs[0]).(*ast.CallExpr); ok {
 						if sel, ok := ast.Unparen(call.Fun).(*ast.SelectorExpr); ok && sel.Sel.Name == "Get" {
 							guarded = true
+						}
+						// the presence test lives in a private helper that returns (…, found bool): the returned flag is
+						// set under a successful Get inside the helper
+						if cal := Callee(info, call); cal != nil && cal.Pkg() == vp.Types && !guarded {
+							if hd := findFuncDecl(vp, cal); hd != nil && hd.Body != nil {
+								inspectNoLit(hd.Body, func(z ast.Node) bool {
+									r, ok := z.(*ast.ReturnStmt)
+									if !ok || len(r.Results) < 2 {
+										return true
+									}
+									rid, ok := ast.Unparen(r.Results[len(r.Results)-1]).(*ast.Ident)
+									if !ok {
+										return true
+									}
+									robj := info.ObjectOf(rid)
+									ast.Inspect(hd.Body, func(w ast.Node) bool {
+										was, ok := w.(*ast.AssignStmt)
+										if !ok || was.Tok != token.ASSIGN {
+											return true
+										}
+										for _, l := range was.Lhs {
+											if lid, ok := l.(*ast.Ident); ok && info.ObjectOf(lid) == robj {
+												for _, g2 := range c.GuardsDeep(was) {
+													if okid, ok := ast.Unparen(g2.Cond).(*ast.Ident); ok && g2.Val {
+														if as2, i2 := definingAssign(info, c.EnclosingFunc(was), info.ObjectOf(okid)); as2 != nil && i2 == 1 && len(as2.Rhs) == 1 {
+															if gc, ok := ast.Unparen(as2.Rhs[0]).(*ast.CallExpr); ok {
+																if gs, ok := ast.Unparen(gc.Fun).(*ast.SelectorExpr); ok && gs.Sel.Name == "Get" {
+																	guarded = true
+																}
+															}
+														}
+													}
+												}
+											}
+										}
+										return true
+									})
+									return true
+								})
+							}
 						}
 					}
 				}
@@ -1112,6 +1159,87 @@ func ruleR134(c *Ctx) {
 			}
 			return true
 		})
+	}
+	// the probe may live in a private helper: func (g) closureInField(value, name) (Function, bool). The helper answers
+	// true only with what ExtractFunction says; its callers take the closure branch under that answer.
+	for _, f := range a.fg.Syntax {
+		for _, d := range f.Decls {
+			fd, ok := d.(*ast.FuncDecl)
+			if !ok || fd.Body == nil || fd.Type.Results == nil {
+				continue
+			}
+			hasIsMap := containsNode(fd.Body, func(y ast.Node) bool {
+				call, ok := y.(*ast.CallExpr)
+				if !ok {
+					return false
+				}
+				sel, ok := ast.Unparen(call.Fun).(*ast.SelectorExpr)
+				return ok && sel.Sel.Name == "IsMap"
+			})
+			hasExtract := containsNode(fd.Body, func(y ast.Node) bool {
+				call, ok := y.(*ast.CallExpr)
+				return ok && isCallTo(info, call, extract)
+			})
+			sig, _ := info.Defs[fd.Name].Type().(*types.Signature)
+			if !hasIsMap || !hasExtract || sig == nil || sig.Results().Len() != 2 {
+				continue
+			}
+			if b, ok := sig.Results().At(1).Type().Underlying().(*types.Basic); !ok || b.Kind() != types.Bool {
+				continue
+			}
+			n++
+			key := declName(a.fg, fd) + "#closure-field-probe"
+			var bad *ast.ReturnStmt
+			g := c.CFG(fd)
+			inspectNoLit(fd.Body, func(y ast.Node) bool {
+				r, ok := y.(*ast.ReturnStmt)
+				if !ok || bad != nil {
+					return true
+				}
+				switch len(r.Results) {
+				case 1:
+					if call, ok := ast.Unparen(r.Results[0]).(*ast.CallExpr); ok && isCallTo(info, call, extract) {
+						return true // forwards the answer of ExtractFunction
+					}
+					bad = r
+				case 2:
+					if tv := info.Types[r.Results[1]]; tv.Value != nil && tv.Value.Kind() == constant.Bool && !constant.BoolVal(tv.Value) {
+						return true
+					}
+					// (f, ok) with ok from ExtractFunction, or true under that ok
+					guarded := false
+					for _, e := range []ast.Expr{r.Results[1]} {
+						if id, ok := ast.Unparen(e).(*ast.Ident); ok {
+							if as, i := definingAssign(info, fd, info.ObjectOf(id)); as != nil && i == 1 && len(as.Rhs) == 1 {
+								if call, ok := ast.Unparen(as.Rhs[0]).(*ast.CallExpr); ok && isCallTo(info, call, extract) {
+									guarded = true
+								}
+							}
+						}
+					}
+					if g != nil {
+						for _, gd := range g.Guards(r) {
+							if id, ok := ast.Unparen(gd.Cond).(*ast.Ident); ok && gd.Val && !gd.Synth {
+								if as, i := definingAssign(info, fd, info.ObjectOf(id)); as != nil && i == 1 && len(as.Rhs) == 1 {
+									if call, ok := ast.Unparen(as.Rhs[0]).(*ast.CallExpr); ok && isCallTo(info, call, extract) {
+										guarded = true
+									}
+								}
+							}
+						}
+					}
+					if !guarded {
+						bad = r
+					}
+				}
+				return true
+			})
+			if bad != nil {
+				c.Violation(key, bad.Pos(), "the helper that looks for a closure in a map field answers 'found' (line %d) without the successful extraction of a function from the entry: a map whose entry of that name is no function does not fall through to the method lookup", c.Fset.Position(bad.Pos()).Line)
+			} else {
+				c.OK(key, fd.Pos(), "the helper answers 'found' only with what ExtractFunction says; otherwise the method lookup follows")
+			}
+		}
 	}
 	if n == 0 {
 		c.Undecided("funcGen#map-branch-of-method-call", token.NoPos, "the closure-field branch of the generated method call was not found")
